@@ -16,9 +16,9 @@ KEEP = keep_labels({"ticks", "sample", "ok", "silent", "pair", "ch1", "ch2", "ch
 
 
 def apu_clock_writers(ctx):
-    from props.common import field_writers
+    from props.common import field_writers, not_confined
     ws = field_writers(ctx.prog, "audio.Audio", "ticks")
-    bad = sorted(ws - {"(*audio.Audio).tickClock", "audio.New"})
+    bad = not_confined(ctx.prog, ws, {"(*audio.Audio).tickClock", "audio.New"})
     return not bad, "writers of Audio.ticks other than tickClock / New: %s" % bad
 
 
